@@ -53,8 +53,57 @@ def dh_modulus():
     return 0
 
 
+def ref_constants():
+    """the constants written out in Sha256Ref.tla / AesRef.tla equal their definitions (FIPS 180-4 4.2.2, 5.3.3; FIPS 197 5.1.1)"""
+    import re
+
+    def iroot(n, k):
+        lo, hi = 0, 1
+        while hi ** k <= n:
+            hi *= 2
+        while lo < hi - 1:
+            m = (lo + hi) // 2
+            lo, hi = (m, hi) if m ** k <= n else (lo, m)
+        return lo
+    ps = []
+    k = 2
+    while len(ps) < 64:
+        if all(k % q for q in ps):
+            ps.append(k)
+        k += 1
+    t = open(os.path.join(vlib.SPECS, "crypto", "Sha256Ref.tla")).read()
+    pairs = lambda body: [(int(a) << 16) | int(b) for a, b in re.findall(r"<<(\d+), (\d+)>>", body)]
+    K = pairs(t[t.index("K == <<"):t.index("H0 ==")])
+    H = pairs(t[t.index("H0 =="):t.index("\\* section 5.1.1")])
+    bad = 0
+    if K != [iroot(q << 96, 3) & 0xffffffff for q in ps] or H != [iroot(q << 64, 2) & 0xffffffff for q in ps[:8]]:
+        print("SELFTEST FAILED: Sha256Ref.tla constants differ from the cube / square roots of the primes")
+        bad += 1
+
+    def xt(b):
+        return ((2 * b) - 256) ^ 27 if 2 * b >= 256 else 2 * b
+
+    def gm(a, b):
+        r = 0
+        while b:
+            if b & 1:
+                r ^= a
+            a = xt(a)
+            b >>= 1
+        return r
+    rotl = lambda b, n: ((b << n) & 255) | (b >> (8 - n))
+    inv = [0] + [next(y for y in range(1, 256) if gm(x, y) == 1) for x in range(1, 256)]
+    sb = [b ^ rotl(b, 1) ^ rotl(b, 2) ^ rotl(b, 3) ^ rotl(b, 4) ^ 99 for b in inv]
+    t = open(os.path.join(vlib.SPECS, "crypto", "AesRef.tla")).read()
+    tab = [int(x) for x in re.findall(r"\d+", t[t.index("SBoxT == <<"):t.index("SBox == [")])]
+    if tab != sb:
+        print("SELFTEST FAILED: AesRef.tla S-box table differs from inverse + affine map")
+        bad += 1
+    return bad
+
+
 def main():
-    bad = dh_modulus()
+    bad = dh_modulus() + ref_constants()
     fixtures()
     d = os.path.join(vlib.BUILD, "selftest")
     os.makedirs(d, exist_ok=True)
